@@ -239,6 +239,9 @@ class RunState(object):
 
     def note_failure(self, case, v):
         self.n_failures += 1
+        # a check may narrow an enumerated composite case down to the failing sub-case
+        if getattr(v, 'case', None) is not None and not self.in_hypothesis:
+            case = v.case
         if self.in_hypothesis and self.first_failure_t is None:
             self.first_failure_t = time.time()
         c = canon(case)
